@@ -1,15 +1,13 @@
 // mfdrive: conformance driver binding the TLA+ specifications in /verif/spec to
 // the implementation built from /repo's working tree. One sub-command per
-// family of specification; see the individual files.
+// family of specification (each drive/*.cpp registers its own); see the files.
+#include <unistd.h>
+
 #include <cstdio>
 #include <cstring>
 #include <exception>
-#include <unistd.h>
 
-namespace vf {
-int ProgMain(int, char**);
-int ExprMain(int, char**);
-}
+#include "common.h"
 
 static void OnTerminate() {
   // a C++ exception escaping the library is itself an observation (C09)
@@ -20,12 +18,11 @@ static void OnTerminate() {
 
 int main(int argc, char** argv) {
   std::set_terminate(OnTerminate);
-  if (argc < 2) {
-    fprintf(stderr, "usage: mfdrive <prog|...> args\n");
+  if (argc < 2 || !vf::Registry().count(argv[1])) {
+    fprintf(stderr, "usage: mfdrive <sub-command> args; sub-commands:");
+    for (auto& kv : vf::Registry()) fprintf(stderr, " %s", kv.first.c_str());
+    fprintf(stderr, "\n");
     return 2;
   }
-  if (!strcmp(argv[1], "prog")) return vf::ProgMain(argc, argv);
-  if (!strcmp(argv[1], "expr")) return vf::ExprMain(argc, argv);
-  fprintf(stderr, "unknown sub-command %s\n", argv[1]);
-  return 2;
+  return vf::Registry()[argv[1]](argc, argv);
 }
